@@ -1,7 +1,7 @@
 """C03 - the two micro-step engines are interchangeable: sibling agreement of all skeleton facts (DESIGN 4/C03)."""
 from .. import facts, exc, path, cfg as cfgm, tab, cg
 from ..facts import AnalysisBroken, strip, sub, locstr
-from . import _skel
+from . import _skel, _domain
 from .C07 import INFEASIBLE, CALLBACKS
 from .C10 import written_members
 from .C13 import protocol_dfa, fl as flstr
@@ -21,12 +21,16 @@ def run(rep, tier):
     rep.rule('R03.1', 'sibling agreement: for every skeleton fact computed for one engine the other engine has the same fact -- phase-protocol verdict and event alphabet, iteration directions per site, exact _flags relation (set of (flags, return, events, flags\') tuples), monitor-protocol verdict, containment status of every callback call, run-state members covered by reset(), serialization key set')
     rep.rule('R03.3', 'isInFinal treats pseudo-states as neutral: a history child of a parallel does not keep the parallel from being final')
     rep.rule('R03.4', 'the fast engine\'s precomputed conflict matrix uses all terms of the conflict definition (same source, source ancestry both ways, exit-set overlap both ways)')
+    rep.rule('R03.5', 'both engines compute the transition domain with the same (specified) quantifier shape: source only if internal, compound and all targets inside; else nearest compound ancestor containing all targets')
     rep.rule('R03.2', 'registration: the factory registers one instance of each engine class, their names are distinct ("large", "fast"), the default engine of InterpreterImpl::init is a registered class')
     rep.assume('equality of traces per input is not decided; agreement is established on structure')
     fb = facts.FactBase(facts.library_tus())
     ex = exc.ExcFlow(fb, infeasible=set(INFEASIBLE))
     rep.covered(tus=len(fb.tus), extracted=fb.extracted, functions=len(fb.funcs))
     sk = {e: _skel.Skeleton(fb, ex, e) for e in (L, F)}
+    for cls, tag in (('uscxml::LargeMicroStep', 'LargeMicroStep'), ('uscxml::FastMicroStep', 'FastMicroStep')):
+        ns, na = _domain.check(rep, 'R03.5', fb, [fb.fn(cls + '::getTransitionDomain')], tag)
+        rep.minimum('R03.5', ns + na, 2, 'shortcut / acceptance sites of %s::getTransitionDomain' % tag)
 
     def both(name, fa, fb_, detail=lambda x: str(x)[:160]):
         rep.check(fa == fb_, 'R03.1', name, '%s / %s' % (sk[L].f.where(), sk[F].f.where()),
